@@ -12,6 +12,8 @@ import (
 	"time"
 )
 
+type solverKilled struct{}
+
 type SatResult int
 
 const (
@@ -106,6 +108,8 @@ func (s *Solver) Close() {
 }
 
 func (s *Solver) Restart() {
+	nc, ns, nu, nk, tm := s.NCheck, s.NSat, s.NUnsat, s.NUnknown, s.Time
+	defer func() { s.NCheck, s.NSat, s.NUnsat, s.NUnknown, s.Time = nc, ns, nu, nk, tm }()
 	s.Close()
 	if err := s.start(); err != nil {
 		panic(engineErr("solver restart: %v", err))
@@ -291,9 +295,31 @@ func (s *Solver) Check(extra *Term, wantModel bool) (SatResult, Model) {
 		s.Push()
 		s.Assert(extra)
 	}
-	s.send("(check-sat)")
+	if s.name == "cvc5" {
+		s.send("(check-sat)")
+	} else {
+		// the tactic pipeline (bit-blasting + SAT) is far more predictable on 64-bit comparison/urem
+		// queries than z3's incremental core, and still runs inside the long-lived process
+		s.send(fmt.Sprintf("(check-sat-using (try-for qfbv %d))", s.timeoutMs))
+	}
 	s.flush()
 	var res SatResult
+	// watchdog: z3 does not always honour :timeout inside bit-blasting; kill the process after the cap
+	proc := s.cmd.Process
+	killed := false
+	timer := time.AfterFunc(time.Duration(s.timeoutMs+5000)*time.Millisecond, func() {
+		killed = true
+		proc.Kill()
+	})
+	defer timer.Stop()
+	defer func() {
+		if r := recover(); r != nil {
+			if killed {
+				panic(solverKilled{})
+			}
+			panic(r)
+		}
+	}()
 	for {
 		line := s.readLine()
 		if line == "" {
